@@ -35,21 +35,33 @@ MANIFEST = dict(
          "succeeds (C17_imports_succeed). Table lemmas by vm_compute over the module graph regenerated from "
          "numbat/modules on every run: every `use` names an existing module, no name is defined twice "
          "(C17_table_wf / C17_table_clash_free / C17_table_keys), so all of the above holds for the real "
-         "standard-library graph (C17_stdlib_succeeds, C17_stdlib_order_free). NOT proved: that a definition means the "
-         "same in both orders (type checking and evaluation of the inlined statements is outside the model) — this is "
-         "checked on the implementation for all single modules, sampled (thorough: all) ordered pairs and random "
-         "subsets by comparing names, signatures, unit representations, variable values and types.",
+         "standard-library graph (C17_stdlib_succeeds, C17_stdlib_order_free). Closedness of the real graph is a table "
+         "lemma too: in every module every identifier a definition uses (free identifiers extracted by the translator; "
+         "prefixed unit spellings resolved to their unit) is defined earlier in the module or by a module that an "
+         "earlier `use` imports transitively, the closure being computed by the resolver model itself "
+         "(C17_table_closed, soundness of the checker proved: closedb_sound), and the graph is acyclic "
+         "(C17_table_acyclic); general theorem C17_defs_available: on a closed table every statement inlined by any "
+         "successful import finds everything it needs in the session (output + earlier imports), in any order; "
+         "C17_stdlib_defs_available instantiates it to the real graph; and C17_scoped_in_order: on a closed AND "
+         "acyclic table every inlined statement is well-scoped in what comes BEFORE it (earlier output + earlier "
+         "imports), for every order (stack invariant of the depth-first pass; acyclicity checker proved sound), with "
+         "the instance C17_stdlib_scoped_in_order. NOT proved: that the translator's free-identifier extraction is "
+         "what numbat's name resolution and type checker look up, and that a definition means the same in both orders (type checking and evaluation are outside the model) — checked on "
+         "the implementation for all single modules, sampled (thorough: all) pairs and random subsets by comparing "
+         "names, signatures, unit representations, types, and the raw values of all globals as f64 bit patterns.",
     design_ref="DESIGN.md §6 C17, design/session.md",
     note="Trusted: Coq kernel + vm_compute; hand model Session/Resolver.v; the regex translator of the .nbt files "
-         "(validated against the implementation's name tables on every run); values are compared as printed "
-         "(default number formatting), not as f64 bits.",
+         "(validated against the implementation's name tables on every run); its free-identifier extraction "
+         "(over-approximates what is bound: parameters, type parameters, where-locals, field names) is not validated "
+         "beyond closedness holding; raw global values are read through the hook numbat::verif::qty::raw_global.",
     technique="Coq proof (induction over fuel and program; reachability closure) + generated module graph with "
               "vm_compute table lemmas + correspondence and metamorphic oracle on real Contexts",
 )
 
 THEOREMS = ["C17_once", "C17_reimport_noop", "C17_closure", "C17_order_free", "C17_env_order_free",
             "C17_imports_succeed", "C17_table_wf", "C17_table_clash_free", "C17_table_keys",
-            "C17_stdlib_succeeds", "C17_stdlib_order_free"]
+            "C17_table_closed", "C17_table_acyclic", "C17_stdlib_succeeds", "C17_stdlib_order_free",
+            "C17_defs_available", "C17_stdlib_defs_available", "C17_scoped_in_order", "C17_stdlib_scoped_in_order"]
 
 
 # ------------------------------------------------------------ translator
@@ -99,29 +111,353 @@ def parse_module(text):
     return items
 
 
-def module_graph(repo=None):
+# ---- free identifiers of a definition (phase 2: closedness of the module graph)
+KEYWORDS = {"per","to","let","fn","where","and","dimension","unit","use","struct","long","short","both","none","if","then","else",
+            "true","false","NaN","inf","print","assert","assert_eq","type","Bool","String","DateTime","Fn","List","Dim","_","ans"}
+PREFIXES = ["quecto","ronto","yocto","zepto","atto","femto","pico","nano","micro","milli","centi","deci","deca","hecto","kilo","mega",
+            "giga","tera","peta","exa","zetta","yotta","ronna","quetta","kibi","mebi","gibi","tebi","pebi","exbi","zebi","yobi","robi","quebi",
+            "q","r","y","z","a","f","p","n","µ","μ","u","m","c","d","da","h","k","M","G","T","P","E","Z","Y","R","Q",
+            "Ki","Mi","Gi","Ti","Pi","Ei","Zi","Yi","Ri","Qi"]
+DELIMS = set(" \t\r\n+-*/^=<>!&|()[]{},;→×·÷−⋅➞≤≥≠⁻⁰¹²³⁴⁵⁶⁷⁸⁹@?")
+
+def strip_strings(line, interp):
+    """remove string literals, collecting {interpolations}"""
+    out=[]; i=0
+    while i < len(line):
+        ch=line[i]
+        if ch=='"':
+            j=i+1; depth=0; cur=[]
+            while j < len(line) and not (line[j]=='"' and depth==0):
+                if line[j]=='\\': j+=2; continue
+                if line[j]=='{': depth+=1; cur=[] if depth==1 else cur
+                elif line[j]=='}':
+                    depth-=1
+                    if depth==0:
+                        e="".join(cur); e=e.split(":")[0] if re.search(r":[^:]*$", e) and not "::" in e else e
+                        interp.append(e)
+                elif depth>0: cur.append(line[j])
+                j+=1
+            out.append(' "" '); i=j+1
+        else:
+            out.append(ch); i+=1
+    return "".join(out)
+
+def words(text):
+    """(word, prev_char, next_char) for identifier-like chunks"""
+    res=[]; i=0; n=len(text)
+    while i<n:
+        if text[i] in DELIMS or text[i] in '":.':
+            i+=1; continue
+        j=i
+        while j<n and text[j] not in DELIMS and text[j] not in '":.':
+            j+=1
+        w=text[i:j]
+        prev=text[i-1] if i>0 else " "
+        # next non-space char
+        k=j
+        while k<n and text[k]==" ": k+=1
+        nxt=text[k] if k<n else " "
+        nxt2=text[k:k+2]
+        res.append((w,prev,nxt,nxt2))
+        i=j
+    return res
+
+def strip_decorators(text):
+    """remove @decorator(...) blocks (balanced parentheses, strings respected) and bare @decorators"""
+    out=[]; i=0; n=len(text); bol=True
+    while i<n:
+        ch=text[i]
+        if bol and ch=="@":
+            j=i+1
+            while j<n and (text[j].isalnum() or text[j]=="_"): j+=1
+            if j<n and text[j]=="(":
+                depth=0; instr=False
+                while j<n:
+                    c=text[j]
+                    if instr:
+                        if c=="\\": j+=1
+                        elif c=='"': instr=False
+                    else:
+                        if c=='"': instr=True
+                        elif c=="(": depth+=1
+                        elif c==")":
+                            depth-=1
+                            if depth==0: j+=1; break
+                    j+=1
+            i=j; continue
+        out.append(ch)
+        bol = (ch=="\n") or (bol and ch in " \t")
+        i+=1
+    return "".join(out)
+
+def statements(text):
+    """group lines into statements: a statement starts at a non-indented, non-empty line; decorators attach to next"""
+    stmts=[]; cur=[]
+    text=strip_decorators(text)
+    for raw in text.split("\n"):
+        line=strip_comment(raw).rstrip()
+        if not line.strip(): continue
+        if (line[0] in " \t)]}") and cur: cur.append(line); continue
+        if cur and (cur[-1].startswith("@") and len(cur)==sum(1 for l in cur if l.startswith("@"))):
+            cur.append(line); continue       # decorators then the statement line
+        if cur: stmts.append(cur)
+        cur=[line]
+    if cur: stmts.append(cur)
+    return stmts
+
+def free_names(stmt_lines):
+    lines=[l for l in stmt_lines if not l.lstrip().startswith("@")]
+    text="\n".join(lines)
+    interp=[]
+    text=strip_strings(text, interp)
+    text=text+" "+" ".join(interp)
+    m=re.match(r"\s*(let|fn|unit|dimension|struct|use)\b", text)
+    kind=m.group(1) if m else "expr"
+    if kind=="use": return kind, set()
+    bound=set()
+    if kind=="fn":
+        # type parameters <A: Dim, B> and parameters (p: T, q)
+        mm=re.match(r"\s*fn\s+([^\s:=<(\[{]+)\s*(<[^>]*>)?\s*\(", text)
+        if mm and mm.group(2):
+            for tp in mm.group(2)[1:-1].split(","):
+                bound.add(tp.split(":")[0].strip())
+        if mm:
+            # parameter list up to the matching parenthesis
+            i=mm.end(); depth=1; cur=[]; params=[]
+            while i<len(text) and depth:
+                c=text[i]
+                if c in "([{": depth+=1
+                elif c in ")]}":
+                    depth-=1
+                    if depth==0: break
+                if c=="," and depth==1: params.append("".join(cur)); cur=[]
+                else: cur.append(c)
+                i+=1
+            params.append("".join(cur))
+            for prm in params:
+                nm=prm.split(":")[0].strip()
+                if nm: bound.add(nm)
+        # where-clause locals:  where x = ...   and y = ...
+        for wm in re.finditer(r"\b(?:where|and)\s+([^\s:=]+)\s*(?::[^=]*)?=", text):
+            bound.add(wm.group(1))
+    if kind=="struct":
+        mm=re.match(r"\s*struct\s+([^\s:=<(\[{]+)\s*(<[^>]*>)?", text)
+        if mm and mm.group(2):
+            for tp in mm.group(2)[1:-1].split(","):
+                bound.add(tp.split(":")[0].strip())
+    res=set()
+    ws=words(text)
+    for idx,(w,prev,nxt,nxt2) in enumerate(ws):
+        if w[0].isdigit(): continue
+        if re.match(r"^[0-9]", w): continue
+        if w in KEYWORDS: continue
+        if prev=="." : continue                      # field access
+        if nxt==":" and nxt2!="::":
+            # `name:` is a parameter / field / annotated variable name, not a use
+            if kind in("fn",) or True:
+                if kind=="fn": bound.add(w)
+                continue
+        res.add(w)
+    # the defined name itself
+    dm=re.match(r"\s*(?:let|fn|unit|dimension|struct)\s+([^\s:=<(\[{]+)", text)
+    own=dm.group(1) if dm else None
+    res.discard(own)
+    res-=bound
+    # module paths a::b in expressions do not occur
+    return kind, res
+
+
+
+def parse_module_full(text):
+    """like parse_module, plus for every definition the identifiers its text uses that are not bound by it
+    (parameters, type parameters, where-locals, field names, keywords, the defined name itself)"""
+    items = []
+    for st in statements_with_decorators(text):
+        deco = [l for l in st if l.lstrip().startswith("@")]
+        aliases = []
+        for l in deco:
+            m = re.match(r"@aliases\((.*)\)\s*$", l.strip())
+            if m:
+                for a in m.group(1).split(","):
+                    a = a.strip().split(":")[0].strip()
+                    if a:
+                        aliases.append(a)
+        body = [l for l in st if not l.lstrip().startswith("@")]
+        if not body:
+            continue
+        kind, fr = free_names(body)
+        head = body[0]
+        if kind == "use":
+            m = re.match(r"use\s+([A-Za-z_][\w:]*)\s*$", head)
+            if m:
+                items.append(("u", m.group(1)))
+            continue
+        m = re.match(r"(let|fn|unit|dimension|struct)\s+([^\s:=<(\[{]+)", head)
+        names = []
+        if m:
+            ns = "t:" if m.group(1) in ("dimension", "struct") else "v:"
+            for x in [m.group(2)] + aliases:
+                if ns + x not in names:
+                    names.append(ns + x)
+        items.append(("d", names, sorted(fr)))
+    return items
+
+
+def statements_with_decorators(text):
+    """statement groups of a module: single-line decorators stay with their statement; multi-line decorator
+    arguments (descriptions) are removed first"""
+    kept = []
+    for raw in text.split("\n"):
+        kept.append(raw)
+    text2 = "\n".join(kept)
+    # remove decorators other than @aliases (they may span lines), keep @aliases lines
+    out, i, n, bol = [], 0, len(text2), True
+    while i < n:
+        ch = text2[i]
+        if bol and ch == "@" and not text2.startswith("@aliases", i):
+            j = i + 1
+            while j < n and (text2[j].isalnum() or text2[j] == "_"):
+                j += 1
+            if j < n and text2[j] == "(":
+                depth, instr = 0, False
+                while j < n:
+                    c = text2[j]
+                    if instr:
+                        if c == "\\":
+                            j += 1
+                        elif c == '"':
+                            instr = False
+                    else:
+                        if c == '"':
+                            instr = True
+                        elif c == "(":
+                            depth += 1
+                        elif c == ")":
+                            depth -= 1
+                            if depth == 0:
+                                j += 1
+                                break
+                    j += 1
+            i = j
+            continue
+        out.append(ch)
+        bol = (ch == "\n") or (bol and ch in " \t")
+        i += 1
+    stmts, cur = [], []
+    for raw in "".join(out).split("\n"):
+        line = strip_comment(raw).rstrip()
+        if not line.strip():
+            continue
+        if (line[0] in " \t)]}") and cur:
+            cur.append(line)
+            continue
+        if cur and all(l.startswith("@") for l in cur):
+            cur.append(line)
+            continue
+        if cur:
+            stmts.append(cur)
+        cur = [line]
+    if cur:
+        stmts.append(cur)
+    return stmts
+
+
+def module_graph_full(repo=None):
+    """module -> ordered items ('u', module) | ('d', [names], [free identifiers])"""
     root = os.path.join(repo or common.REPO, "numbat", "modules")
     g = {}
     for m in S.stdlib_modules(repo):
-        g[m] = parse_module(open(os.path.join(root, *m.split("::")) + ".nbt", encoding="utf-8").read())
+        g[m] = parse_module_full(open(os.path.join(root, *m.split("::")) + ".nbt", encoding="utf-8").read())
     return g
 
 
-def write_graph(g):
+def module_graph(repo=None, full=None):
+    """module -> ordered items ('u', module) | ('d', [names])  (definitions that introduce names only)"""
+    full = full or module_graph_full(repo)
+    root = os.path.join(repo or common.REPO, "numbat", "modules")
+    g = {}
+    for m, items in full.items():
+        g[m] = [(i[0], i[1]) for i in items if i[0] == "u" or i[1]]
+        # self-check of the translator: the line-based parser of phase 1 must see the same uses and names
+        simple = parse_module(open(os.path.join(root, *m.split("::")) + ".nbt", encoding="utf-8").read())
+        if simple != g[m]:
+            raise common.Broken("module graph translator: the two parsers disagree on module %s" % m)
+    return g
+
+
+def unit_alias_names(repo=None):
+    """all names introduced by `unit` statements (with aliases): the names a prefix can be attached to"""
+    root = os.path.join(repo or common.REPO, "numbat", "modules")
+    names = set()
+    for m in S.stdlib_modules(repo):
+        al = []
+        for raw in open(os.path.join(root, *m.split("::")) + ".nbt", encoding="utf-8").read().split("\n"):
+            line = strip_comment(raw).rstrip()
+            mm = re.match(r"@aliases\((.*)\)\s*$", line)
+            if mm:
+                al = [a.strip().split(":")[0].strip() for a in mm.group(1).split(",") if a.strip()]
+                continue
+            if line.startswith("@"):
+                continue
+            mm = re.match(r"unit\s+([^\s:=<(\[{]+)", line)
+            if mm:
+                names.add(mm.group(1))
+                names.update(al)
+            if line.strip() and line[0] not in " \t":
+                al = []
+    return names
+
+
+def resolution_alternatives(full, repo=None):
+    """identifier -> the namespaced names that would satisfy it: itself as value or type name, or the unit it
+    is a prefixed spelling of.  Unknown identifiers get the unsatisfiable alternative ?:<identifier>."""
+    allv, allt = set(), set()
+    for items in full.values():
+        for it in items:
+            if it[0] == "d":
+                for x in it[1]:
+                    (allv if x.startswith("v:") else allt).add(x[2:])
+    units = unit_alias_names(repo)
+
+    def alts(w):
+        a = []
+        if w in allv:
+            a.append("v:" + w)
+        if w in allt:
+            a.append("t:" + w)
+        for p in PREFIXES:
+            if w.startswith(p) and w[len(p):] in units and "v:" + w[len(p):] not in a:
+                a.append("v:" + w[len(p):])
+        return a or ["?:" + w]
+    return alts
+
+
+def write_graph(g, full=None, repo=None):
+    full = full or module_graph_full(repo)
+    alts = resolution_alternatives(full, repo)
     lines = []
-    for m in sorted(g):
+    for m in sorted(full):
         its = []
-        for k, v in g[m]:
-            its.append("u:" + v if k == "u" else "d:" + ",".join(v))
+        for it in full[m]:
+            if it[0] == "u":
+                its.append("u:" + it[1])
+            else:
+                fr = ",".join("|".join(alts(w)) for w in it[2])
+                its.append("d:" + ",".join(it[1]) + "~" + fr)
         lines.append(m + "|" + ";".join(its))
     src = "\n".join(lines)
     for ch in '"':
         assert ch not in src
     text = ("(* GENERATED by tools/props/c17.py from numbat/modules/**/*.nbt: per module, in source order,\n"
-            "   its `use`s (u:) and the names each definition introduces (d:, v: value / t: type namespace). *)\n"
-            "From Coq Require Import String.\nFrom NV Require Import Session.ImportExec.\n"
-            "Definition module_graph_src : string :=\n\"%s\".\n"
-            "Definition stdlib : mtable := Eval vm_compute in parse_graph module_graph_src.\n" % src)
+            "   its `use`s (u:<module>) and its definitions (d:<names>~<free identifiers>): the names a definition\n"
+            "   introduces (v: value / t: type namespace) and, for every identifier its text uses without binding\n"
+            "   it, the alternatives (separated by |) that would satisfy it. *)\n"
+            "From Coq Require Import String List.\nFrom NV Require Import Session.ImportExec.\nImport ListNotations.\n"
+            "Open Scope string_scope.\n"
+            "(* one string per module (a single literal of this size overflows coqc's stack) *)\n"
+            "Definition module_graph_lines : list string := [\n%s\n].\n"
+            "Definition stdlib : mtable := Eval vm_compute in parse_graph_lines module_graph_lines.\n"
+            % ";\n".join('"%s"' % l for l in lines))
     path = os.path.join(common.COQ, "theories", "Gen", "ModuleGraph.v")
     os.makedirs(os.path.dirname(path), exist_ok=True)
     if not os.path.exists(path) or open(path, encoding="utf-8").read() != text:
@@ -189,8 +525,9 @@ def translator_names(g, imp):
 
 def run(chk):
     binary, _ = common.build_harness()
-    g = module_graph()
-    write_graph(g)
+    full = module_graph_full()
+    g = module_graph(full=full)
+    write_graph(g, full)
     proved = chk.prove("Props.C17", THEOREMS, ["theories/Props/C17.vo"])
     if not proved:
         chk.notes.append("proof side: " + str(getattr(chk, "proof_failure", "?"))[:1500])
@@ -198,7 +535,8 @@ def run(chk):
         "model Session/Resolver.v: hand port of numbat/src/resolver.rs (inlining_pass, imported_modules)",
         "translator tools/props/c17.py:parse_module (line regex over %d .nbt files) -> Gen/ModuleGraph.v; its name "
         "extraction is compared with the implementation's name tables on every run" % len(g),
-        "values of constants are compared as printed by print() (default formatting), types as printed by type()",
+        "values of all globals are compared as f64 bit patterns + unit (hook numbat::verif::qty::raw_global), and as "
+        "printed by print(); types as printed by type()",
     ]
     chk.assumptions += [
         "BuiltinModuleImporter serves exactly the files under numbat/modules (rust-embed of that folder)",
